@@ -10,6 +10,8 @@ Open Scope N_scope.
 Inductive body :=
 | BFlst (be : bool) (sty : N) (serial : N) (name : list N) (size nr bs : N)
 | BFlda (be : bool) (sty sty2 : N) (serial pnr : N) (raw_ti : N) (payload : list N)
+| BFldaPat (be : bool) (sty sty2 : N) (serial pnr : N) (raw_ti : N) (a b len : N)
+      (* payload described structurally: byte i is (a + b * i) mod 256 *)
 | BFlfi (be : bool) (sty : N) (serial : N)
 | BArgs (args : list (N * bool * list N)).
 
@@ -34,6 +36,9 @@ Definition enc_int (be : bool) (sty v : N) : arg :=
   mkArg ti be (if be then rev b else b).
 Definition enc_str (be : bool) (s : list N) : arg := mkArg TI_STRG be (s ++ [0]).
 
+Fixpoint pat (a b : N) (len : nat) : list N :=
+  match len with O => [] | S k => (a mod 256) :: pat ((a + b) mod 256) b k end.
+
 Definition expand_body (b : body) : list arg :=
   match b with
   | BFlst be sty serial name size nr bs =>
@@ -41,6 +46,8 @@ Definition expand_body (b : body) : list arg :=
        enc_int be sty nr; enc_int be sty bs; enc_str be TAG_FLST]
   | BFlda be sty sty2 serial pnr raw_ti payload =>
       [enc_str be TAG_FLDA; enc_int be sty serial; enc_int be sty2 pnr; mkArg raw_ti be payload; enc_str be TAG_FLDA]
+  | BFldaPat be sty sty2 serial pnr raw_ti a b len =>
+      [enc_str be TAG_FLDA; enc_int be sty serial; enc_int be sty2 pnr; mkArg raw_ti be (pat a b (N.to_nat len)); enc_str be TAG_FLDA]
   | BFlfi be sty serial =>
       [enc_str be TAG_FLFI; enc_int be sty serial; enc_str be TAG_FLFI]
   | BArgs args => map (fun a => mkArg (fst (fst a)) (snd (fst a)) (snd a)) args
@@ -63,6 +70,12 @@ Definition pre_of (c : ccfg) : list (list N * list N) :=
 
 (* ---- observation *)
 Definition o_bytes (l : list N) : otree := T (map L l).
+(* file contents: literally up to 48 bytes, otherwise length, checksum, first and last 8 bytes
+   (the harness' oracle compares the full contents with the original file) *)
+Definition cksum (l : list N) : N := fold_left (fun h b => (h * 131 + b + 1) mod 4294967291) l 7.
+Definition o_blob (l : list N) : otree :=
+  if Nat.leb (length l) 48 then T (map L l)
+  else T [L (lenN l); L (cksum l); T (map L (firstn 8 l)); T (map L (skipn (length l - 8) l))].
 Definition o_state (s : tstate) : otree :=
   L (match s with MissingStart => 0 | Started => 1 | Complete => 2 | Incomplete => 3 end).
 
@@ -79,7 +92,7 @@ Definition o_transfer (c : cfg) (s : st) (i : nat) (t : transfer) : otree :=
      L vis_next; L vis_recvd; L vis_nr;
      oopt o_bytes (t_saved t);
      oopt o_bytes (if tstate_eqb st Complete && c_allow_save c then Some (base_name t) else None);
-     oopt o_bytes (saved_bytes s i)].
+     oopt o_blob (saved_bytes s i)].
 
 Fixpoint o_transfers (c : cfg) (s : st) (i : nat) (ts : list transfer) : list otree :=
   match ts with [] => [] | t :: r => o_transfer c s i t :: o_transfers c s (S i) r end.
@@ -102,7 +115,7 @@ Definition o_run (c : cfg) (r : res (st * list bool)) : otree :=
   match r with
   | Ok (s, rets) =>
       T [L 0; T (map ob rets); L (s_gen s); T (o_transfers c s 0 (s_pub s));
-         T (map (fun f => T [o_bytes (fst f); o_bytes (snd f)]) (sort_files (s_fs s)))]
+         T (map (fun f => T [o_bytes (fst f); o_blob (snd f)]) (sort_files (s_fs s)))]
   | Panic _ => T [L 1]
   | OutOfFuel => T [L 2]
   end.
